@@ -114,6 +114,9 @@ fn remap(f: Failure, sig: &str) -> Failure {
 
 /// Handles one request line inside the child worker process; returns one reply line (JSON).
 pub fn worker(request: &str) -> String {
+    if let Some(rest) = request.strip_prefix("WALX ") {
+        return crate::props::walx::worker(rest);
+    }
     let req: Req = match serde_json::from_str(request) {
         Ok(r) => r,
         Err(e) => return format!("ERR bad request: {e}"),
@@ -846,6 +849,8 @@ pub fn run(r: &mut Run) {
     r.subcheck("wal_multi_file", r.cases(1500, 60_000), move || multi_case_strategy(max_steps), |c: &MultiCase| {
         check_multi_case(c, &pool, &ctr)
     });
+    // crash images of an AsyncWalManager directory (walx.rs)
+    crate::props::walx::run_c06(r, &pool, &ctr);
     r.note(format!(
         "crash images opened in worker processes: {} (cut strictly inside a record: {}, bit flips: {}, checkpoint/rotation mixes: {}, with continuation: {}, deadline retries: {})",
         ctr.images.load(Ordering::Relaxed),
